@@ -117,6 +117,70 @@ def _adv():
     return D
 
 
+def _multi():
+    """designs with several instances of one class that differ in optional ports / parameters: they may or may not share a
+    module name, and binding an instance to the first emitted body must not change its behaviour or interface"""
+    import py4hw
+    from py4hw.logic import storage as S_, arithmetic as A, bitwise as B
+    D = {}
+    def two_regs_rv(s, c):
+        d = s.wire('d', 8); e = s.wire('e'); q1 = s.wire('q1', 8); q2 = s.wire('q2', 8)
+        S_.Reg(s, 'r1', d, q1, enable=e, reset_value=0); S_.Reg(s, 'r2', d, q2, enable=e, reset_value=5)
+        return None, {'d': d, 'e': e}, {'q1': q1, 'q2': q2}
+    D['two-Reg8E-different-reset-values'] = two_regs_rv
+    def two_regs_rv_reset(s, c):
+        d = s.wire('d', 8); r = s.wire('r'); q1 = s.wire('q1', 8); q2 = s.wire('q2', 8)
+        S_.Reg(s, 'r1', d, q1, reset=r, reset_value=3); S_.Reg(s, 'r2', d, q2, reset=r, reset_value=200)
+        return None, {'d': d, 'r': r}, {'q1': q1, 'q2': q2}
+    D['two-Reg8R-different-reset-values'] = two_regs_rv_reset
+    def two_adds(s, c):
+        a = s.wire('a', 8); b = s.wire('b', 8); inc = s.wire('inc', 1); r1 = s.wire('r1', 8); r2 = s.wire('r2', 8)
+        A.Add(s, 'add1', a, inc, r1); A.Add(s, 'add2', a, b, r2)
+        return None, {'a': a, 'b': b, 'inc': inc}, {'r1': r1, 'r2': r2}
+    D['two-Add-same-result-width-different-operand-widths'] = two_adds
+    def two_adds_rev(s, c):
+        a = s.wire('a', 8); b = s.wire('b', 8); inc = s.wire('inc', 1); r1 = s.wire('r1', 8); r2 = s.wire('r2', 8)
+        A.Add(s, 'add2', a, b, r2); A.Add(s, 'add1', a, inc, r1)
+        return None, {'a': a, 'b': b, 'inc': inc}, {'r1': r1, 'r2': r2}
+    D['two-Add-wide-first'] = two_adds_rev
+    def regs_opt(s, c):
+        d = s.wire('d', 4); e = s.wire('e'); r = s.wire('r'); q1 = s.wire('q1', 4); q2 = s.wire('q2', 4); q3 = s.wire('q3', 4); q4 = s.wire('q4', 4)
+        S_.Reg(s, 'r1', d, q1); S_.Reg(s, 'r2', d, q2, enable=e); S_.Reg(s, 'r3', d, q3, reset=r); S_.Reg(s, 'r4', d, q4, enable=e, reset=r)
+        return None, {'d': d, 'e': e, 'r': r}, {'q1': q1, 'q2': q2, 'q3': q3, 'q4': q4}
+    D['four-Reg4-all-optional-port-combinations'] = regs_opt
+    def two_sext(s, c):
+        a = s.wire('a', 4); r1 = s.wire('r1', 8); r2 = s.wire('r2', 6)
+        A.SignExtend(s, 'sx1', a, r1); A.SignExtend(s, 'sx2', a, r2)
+        return None, {'a': a}, {'r1': r1, 'r2': r2}
+    D['two-SignExtend-different-result-widths'] = two_sext
+    def two_neg_abs(s, c):
+        a = s.wire('a', 8); r1 = s.wire('r1', 8); r2 = s.wire('r2', 4); r3 = s.wire('r3', 8)
+        A.Neg(s, 'n1', a, r1); A.Neg(s, 'n2', a, r2); A.Abs(s, 'abs', a, r3)
+        return None, {'a': a}, {'r1': r1, 'r2': r2, 'r3': r3}
+    D['Neg8-two-result-widths-and-Abs8'] = two_neg_abs
+    def counters(s, c):
+        rs = s.wire('rs'); inc = s.wire('inc'); q1 = s.wire('q1', 4); q2 = s.wire('q2', 4); co = s.wire('co')
+        A.Counter(s, 'c1', rs, inc, q1); A.ModuloCounter(s, 'c2', 10, rs, inc, q2, co)
+        return None, {'rs': rs, 'inc': inc}, {'q1': q1, 'q2': q2, 'co': co}
+    D['Counter-and-ModuloCounter'] = counters
+    return D
+
+
+def multi_item(name, tier='quick', timeout_s=20, seed=0):
+    work._load_blocks()
+    base = 'design::multi.%s' % name
+    try:
+        sys_, top, pin, pout, ins, outs = wrap('multi_' + ''.join(ch if ch.isalnum() else '_' for ch in name), _multi()[name], {})
+    except Exception as e:
+        return [{'oid': base + '#refused', 'status': 'refused', 'bounded': True, 'evaluations': 0, 'reason': repr(e)[:200]}]
+    try:
+        res, text = vcompare.compare(sys_, top, pin, pout, base, timeout_s=timeout_s)
+    except (N.Undecided, L.Unsupported, L.ShapeError, ir.EvalError) as e:
+        return [{'oid': base + '#undecided', 'status': 'unknown', 'reason': '%s: %s' % (type(e).__name__, e), 'function': name}]
+    for r in res: r['cfg'] = {'design': name}
+    return [r for r in res if '#wellformed[' not in r['oid']]
+
+
 def adv_item(name, k, tier='quick', timeout_s=20, seed=0):
     work._load_blocks()
     make, cfgs = _adv()[name]
@@ -226,6 +290,7 @@ def main(tier, seed, only=None):
             items.append(('props.C01:design_item', dict(name=name, cfg=cfg, tier=tier, timeout_s=20 if tier == 'quick' else 120, seed=seed)))
     for nm, (mk, cfgs) in _adv().items():
         items += [('props.C01:adv_item', dict(name=nm, k=k, tier=tier, timeout_s=20 if tier == 'quick' else 120, seed=seed)) for k in range(len(cfgs))]
+    items += [('props.C01:multi_item', dict(name=nm, timeout_s=20 if tier == 'quick' else 120)) for nm in _multi()]
     if not os.environ.get('PVC_BASELINE'):
         items += [('props.C01:rand_item', dict(seed=seed * 1000 + k, timeout_s=20 if tier == 'quick' else 120)) for k in range(24 if tier == 'quick' else 200)]
     items = common.filter_only(items, only)
